@@ -245,16 +245,30 @@ def _notes_access(w, deck, a):
     _ = ns.notes_placeholder
 
 
-@op("background_fill", "slides")
-@gen(lambda r: dict(g_sl(r), mode=r.choice(["solid", "solid", "gradient", "patterned", "follow"]),
+@op("background_fill", "slides", weight=1.5)
+@gen(lambda r: dict(g_sl(r), mode=r.choice(["solid", "solid", "gradient", "patterned", "follow", "read"]),
+                    where=r.choice(["slide", "slide", "slide", "layout", "master", "notes_master", "notes_slide"]),
                     rgb="%06X" % r.randint(0, 0xFFFFFF)))
 def _background(w, deck, a):
     from pptx.dml.color import RGBColor
     sl = nav_slide(w, deck, a)
+    where = a.get("where", "slide")
+    if where == "layout":
+        sl = sl.slide_layout
+    elif where == "master":
+        sl = sl.slide_layout.slide_master
+    elif where == "notes_master":
+        sl = deck.prs.notes_master
+    elif where == "notes_slide":
+        sl = sl.notes_slide
     if a["mode"] == "follow":
-        _ = sl.follow_master_background
+        if where == "slide":
+            _ = sl.follow_master_background
         return
     fill = sl.background.fill
+    if a["mode"] == "read":
+        _ = fill.type
+        return
     if a["mode"] == "solid":
         fill.solid()
         fill.fore_color.rgb = RGBColor.from_string(a["rgb"])
@@ -834,10 +848,20 @@ def _tf_prop(w, deck, a):
         setattr(tf, prop, a["m"])
 
 
-@op("run_hyperlink", "actions", creates=True, weight=1.5)
-@gen(lambda r: dict(g_sh(r), para=r.randint(0, 4), run=r.randint(0, 3),
-                    addr=r.choice([None, "http://example.com/", "https://a.b/c?d=e&f=g", "mailto:x@y.z",
-                                   "http://example.com/" + xml_text(r, 8), "file:///C:/a b.txt", ""])))
+URL_POOL = ["http://example.com/", "https://a.b/c?d=e&f=g", "http://example.com/"]
+
+
+def g_addr(r):
+    k = r.random()
+    if k < 0.2:
+        return None
+    if k < 0.75:
+        return r.choice(URL_POOL)  # small pool: several runs / shapes end up sharing one relationship
+    return r.choice(["mailto:x@y.z", "http://example.com/" + xml_text(r, 8), "file:///C:/a b.txt", ""])
+
+
+@op("run_hyperlink", "actions", creates=True, weight=2.5)
+@gen(lambda r: dict(g_sh(r), para=r.randint(0, 4), run=r.randint(0, 3), addr=g_addr(r)))
 def _run_hyperlink(w, deck, a):
     sl, sh, tf, p, rn = nav_run(w, deck, a)
     rn.hyperlink.address = a["addr"]
@@ -918,9 +942,8 @@ def _shape_shadow(w, deck, a):
 
 # ---- actions ----------------------------------------------------------------------------------------------
 
-@op("click_hyperlink", "actions", creates=True, weight=1.5)
-@gen(lambda r: dict(g_sh(r), addr=r.choice([None, "http://example.com/", "https://x.y/?q=1&r=2",
-                                            "http://example.com/" + xml_text(r, 8), "http://example.com/"])))
+@op("click_hyperlink", "actions", creates=True, weight=2.0)
+@gen(lambda r: dict(g_sh(r), addr=g_addr(r)))
 def _click_hyperlink(w, deck, a):
     sl, sh = nav_shape(w, deck, a, "nongroup")
     sh.click_action.hyperlink.address = a["addr"]
